@@ -30,8 +30,10 @@ pub fn language(lang: &str, c: &Value, multi_file: bool) -> Box<dyn Language> {
             prefix: st(&c["prefix"]),
             type_mappings: map(&c["type_mappings"]),
             no_version_header: nvh,
+            // (a field added to the struct by a change under test must not break the harness build)
+            ..Default::default()
         }),
-        "scala" => Box::new(Scala { package: st(&c["package"]), module_name: st(&c["module_name"]), type_mappings: map(&c["type_mappings"]), no_version_header: nvh }),
+        "scala" => Box::new(Scala { package: st(&c["package"]), module_name: st(&c["module_name"]), type_mappings: map(&c["type_mappings"]), no_version_header: nvh, ..Default::default() }),
         "swift" => Box::new(Swift {
             prefix: st(&c["prefix"]),
             type_mappings: map(&c["type_mappings"]),
